@@ -901,6 +901,742 @@ def literal_phase(ctx: Ctx, n_cases: int) -> None:
 
 
 # ------------------------------------------------------------------------------------------------
+# phase X: regex terminals (model printRegex / evalRaw / spellSteps vs Terminal.format_as_spec, the real
+# front end and CPython `re`)
+# ------------------------------------------------------------------------------------------------
+
+# candidate subjects for "what a pattern denotes" (the oracle D of PyLit.HexEscapeSound)
+DEN_T = CANDS_T + ["a\nb", "a\n b", "a\tb", "a\x0cb", "a\x0bb", "a\rb", "a #c", "a#c\nb", "\t", "\x0c", "\x0b", "\r", "#", "ÿ", "a\xffb",
+                   "\x00", "\x01", "\x7f", "[", "a'", "a\"", "'a", "x27", "a\\", "\\a", "\\\\'", "\\\\\"", "a\\nb", "\\n", "n"]
+DEN_B = [c.encode("latin-1") for c in DEN_T if all(ord(x) < 256 for x in c)] + [b"\x80", b"\xfe\xff"]
+_den_cache: dict = {}
+
+
+def denote(p: Any) -> str:
+    """compile error, or the verdicts of re.fullmatch on the candidate set"""
+    key = (type(p).__name__, p)
+    if key not in _den_cache:
+        try:
+            with warnings.catch_warnings():
+                warnings.simplefilter("ignore")
+                cre = re.compile(p)
+            _den_cache[key] = "".join("1" if cre.fullmatch(c) else "0" for c in (DEN_T if isinstance(p, str) else DEN_B))
+        except (re.error, RecursionError, OverflowError):
+            _den_cache[key] = "error"
+    return _den_cache[key]
+
+
+Q3S, Q3D = "'" * 3, '"' * 3
+RE_UNITS = ["a", "b", "x", " ", "'", '"', "\\'", '\\"', "\\\\", "\\\\\\'", "\\\\'", "[']", "[\"']", ".", "*", "+", "?", "|", "(", ")", "[a-c]",
+            "[^']", "\\d", "\\x27", "\\x41", "\\n", "\\.", "\n", "\r", "\t", "\\\n", "\\\t", "é", "ÿ", "€", "😀", "\x85", " ", "\x01", "\x7f",
+            "\x80", "\xff", "\\\xff", "\\é", "#", "{2}", "\\", "''", '""', Q3S, Q3D, "\x0b", "\\\x0c", "\x0c"]
+# verbose patterns and an unescaped form feed (in RE_UNITS) hit the open findings C15/regex-verbose-whitespace and
+# C15/regex-formfeed: generated on every run, reported through run.report with exactly these signatures
+RE_VERBOSE = ["(?x)", "(?x)", "(?xi)", "(?x:a b)"]
+WS = "\t\n\r\x0b\x0c"
+_VERBOSE_RE = re.compile(r"\(\?[aiLmsu]*x[aiLmsux]*(-[imsx]+)?[:)]")
+
+
+def gen_regex(rng) -> Any:
+    n = rng.choice([1, 1, 2, 3, 4, 5, 7])
+    s = "".join(rng.choice(RE_UNITS) for _ in range(n))
+    if rng.random() < 0.2:
+        s = rng.choice(RE_VERBOSE) + s
+    if rng.random() < 0.45 and all(ord(c) < 256 for c in s):
+        return s.encode("latin-1")
+    return s
+
+
+def pat_cps(p: Any) -> list[int]:
+    return list(p) if isinstance(p, bytes) else [ord(c) for c in p]
+
+
+def cps_pat(cps: list[int], is_bytes: bool) -> Any:
+    return bytes(cps) if is_bytes else "".join(chr(c) for c in cps)
+
+
+def read_symbol_text(text: str):
+    """the real front end on `<start> ::= text`: ("regex"|"plain", value) for a single terminal, ("other",) for
+    anything else it accepts, ("reject", kind) otherwise"""
+    from fandango.language.symbols import NonTerminal
+    try:
+        sp = read_real("<start> ::= " + text + "\n")
+    except Exception as e:  # noqa
+        return ("reject", reject_kind(e))
+    node = sp.grammar.rules.get(NonTerminal("<start>"))
+    if type(node).__name__ != "TerminalNode" or len(sp.grammar.rules) != 1:
+        return ("other",)
+    sym = node.symbol
+    return ("regex" if sym.is_regex else "plain", gio.terminal_payload(sym))
+
+
+def regex_phase(ctx: Ctx, n_cases: int) -> None:
+    run = ctx.run
+    rng = run.rng("regexes")
+    from fandango.language.symbols import Terminal
+    pats: list[Any] = list(REGEXES) + list(REGEXES_MIXED) + ["x'y\"z\\\\", "\\\\", "\\\\\\\\", "é'\"", "a\nb", b"\\\xff'\"", b"\n'", "'\\\"",
+                                                              "a\\\n'\"", "a" + Q3S + "b", Q3S + Q3D]
+    pats += ["a\x0cb", "\x0c'\""]                                                    # C15/regex-formfeed
+    pats += ["(?x)a # it's \"c\"\n b", "(?x)a\n b", b"(?x)a\tb", b"(?x)a # c\n b"]     # C15/regex-verbose-whitespace
+    for _ in range(n_cases):
+        pats.append(gen_regex(rng))
+    seen: set = set()
+    uniq = []
+    for p in pats:
+        k = (type(p).__name__, p)
+        if k not in seen:
+            seen.add(k)
+            uniq.append(p)
+    ans = driver_ask("drv_print", [{"op": "reprint", "bytes": isinstance(p, bytes), "pat": pat_cps(p)} for p in uniq])
+    texts: list[tuple] = []
+    for p, a in zip(uniq, ans):
+        is_b = isinstance(p, bytes)
+        run.evaluations += 1
+        s = p.decode("latin-1") if is_b else p
+        feats = [("bytes" if is_b else "str"), ("rewritten" if a["rewrites"] else "verbatim")]
+        if "'" in s and '"' in s:
+            feats.append("both_quotes")
+        if s.endswith("\\"):
+            feats.append("backslash_at_end")
+        if any(ord(c) > 127 for c in s):
+            feats.append("non_ascii")
+        if not a["wf"]:
+            feats.append("inexpressible")
+        for f in feats:
+            run.count("regex:" + f)
+        run.case(["regex", "b" if is_b else "t", pat_cps(p)], a["rewrites"] or ("both_quotes" in feats), {"pattern": ascii(p)})
+        t = Terminal(p)
+        t._is_regex = True
+        real_text = t.format_as_spec()
+        model_text = "".join(chr(c) for c in a["text"])
+        # (P) printer correspondence
+        if model_text != real_text:
+            ctx.corr_fail("regex_print", {"pattern": ascii(p), "model": ascii(model_text), "impl": ascii(real_text)})
+            continue
+        texts.append((model_text, p))
+        # the theorem's instance, re-computed by the driver (sanity of the executable definitions)
+        if a["wf"] and a["noff"]:
+            if a["eval"] is None or a["eval"]["bytes"] != is_b or a["eval"]["v"] != a["spelled"]:
+                ctx.corr_fail("regex_theorem_instance", {"pattern": ascii(p), "eval": a["eval"], "spelled": a["spelled"]})
+        # (R) reader correspondence on the printed text + the property on the real code
+        real = read_symbol_text(real_text)
+        replay = {"kind": "regex", "spec": "<start> ::= " + real_text + "\n", "pattern": pat_show(p)}
+        model_v = None if a["eval"] is None else cps_pat(a["eval"]["v"], a["eval"]["bytes"])
+        real_v = real[1] if real[0] == "regex" else None
+        if (model_v is None) != (real_v is None) or (model_v is not None and (model_v != real_v or type(model_v) is not type(real_v))):
+            ctx.corr_fail("regex_read", {"pattern": ascii(p), "text": ascii(real_text), "model": ascii(model_v), "impl": ascii(real)})
+        if not a["wf"]:
+            continue                      # not the value of any raw literal: outside the quantifier
+        verbose_ws = bool(_VERBOSE_RE.search(s)) and any(c in WS for c in s)
+        if real_v is None:
+            sig = "C15/regex-formfeed" if (not is_b and not a["noff"]) else "C15/printed-text-rejected"
+            run.report(sig, f"regex terminal {p!a} prints as {real_text!a}, which the front end rejects ({real})", replay)
+            continue
+        # (O) the oracle assumption, instance by instance, and the conclusion
+        for before, after in a["steps"]:
+            b0, b1 = cps_pat(before, is_b), cps_pat(after, is_b)
+            run.count("oracle_instances")
+            if denote(b0) != denote(b1):
+                sig = "C15/regex-verbose-whitespace" if verbose_ws else "C15/regex-hex-escape-unsound"
+                run.report(sig, f"re: {b0!a} and {b1!a} (one unit spelled \\xNN) do not denote the same regex; "
+                                f"{p!a} is printed {real_text!a}", replay)
+                break
+        if denote(real_v) != denote(p):
+            sig = "C15/regex-verbose-whitespace" if verbose_ws else "C15/regex-changed"
+            run.report(sig, f"regex terminal {p!a} is printed {real_text!a} and read back as {real_v!a}, a different regex", replay)
+        elif real_v == p:
+            run.count("regex_identical_after_roundtrip")
+        else:
+            run.count("regex_rewritten_same_denotation")
+    # (R') the reader on mutated literal texts: model evalRaw vs the real front end
+    muts: list[str] = []
+    alphabet = ["'", '"', "\\", "a", "r", "b", "R", "B", "u", "é", "\t", "\x0c", " ", "\\'", "''", "x"]
+    for text, p in texts:
+        for _ in range(2):
+            t = text
+            r = rng.random()
+            i = rng.randrange(len(t) + 1)
+            if r < 0.35 and i < len(t):
+                t = t[:i] + t[i + 1:]
+            elif r < 0.75:
+                t = t[:i] + rng.choice(alphabet) + t[i:]
+            elif i < len(t):
+                t = t[:i] + rng.choice(alphabet) + t[i + 1:]
+            if rng.random() < 0.3:
+                t = rng.choice(["R", "rb", "bR", "Br", "RB", "br", "rB", "r", "b", "u", "rr", "fr", ""]) + t.lstrip("rb")
+            muts.append(t)
+    # the token itself: no layout around it (blanks, a line-joining backslash), no line break / NUL / comment
+    muts = list(dict.fromkeys(m for m in muts if m and not any(c in m for c in "\n\r\x00#") and m.strip(" \t\x0c") == m
+                              and not m.endswith("\\")))
+    ans2 = driver_ask("drv_print", [{"op": "raweval", "text": [ord(c) for c in m]} for m in muts])
+    for m, a in zip(muts, ans2):
+        run.evaluations += 1
+        real = read_symbol_text(m)
+        model_v = None if a["v"] is None else cps_pat(a["v"]["v"], a["v"]["bytes"])
+        real_v = real[1] if real[0] == "regex" else None
+        run.count("rawtext:" + ("accept" if real_v is not None else real[0]))
+        if (model_v is None) != (real_v is None) or (model_v is not None and (model_v != real_v or type(model_v) is not type(real_v))):
+            ctx.corr_fail("regex_raweval", {"text": ascii(m), "model": ascii(model_v), "impl": ascii(real)})
+
+
+# ------------------------------------------------------------------------------------------------
+# phase Q: selectors (model printSel/readSel/normSel of Model/PrintSearch.lean vs the real search classes'
+# format_as_spec() and the real front end), and the payloads that embed them: computed repetition bounds,
+# generators (model printE/readE, crep, rules of Model/Print.lean)
+# ------------------------------------------------------------------------------------------------
+
+SEL_NTS = ["<a>", "<b>", "<c>", "<start>"]
+SEL_GRAMMAR = "<start> ::= <a> <b> <a>\n<a> ::= <c>+ | 'q'\n<b> ::= 'y' | 'z' <c>\n<c> ::= '1' | '2'\n"
+SEL_WORDS = ["1y1", "qyq", "2z12", "11y2", "qz2q", "12z1q", "22z21"]
+
+
+def gen_slice(rng) -> list:
+    if rng.random() < 0.4:
+        return ["idx", rng.randint(0, 3)]
+    opt = lambda: rng.choice([None, 0, 1, 2, 10])   # noqa: E731
+    a, b = opt(), opt()
+    c = rng.choice([None, None, 1, 2])
+    return ["rng", a, b, c]
+
+
+def gen_selection(rng, bad: bool) -> list:
+    """a non-terminal with at most one group"""
+    base = ["rule", rng.choice(SEL_NTS)]
+    r = rng.random()
+    if r < 0.55:
+        return base
+    if r < 0.8:
+        k = 0 if (bad and rng.random() < 0.15) else rng.randint(1, 3)
+        return ["item", base, [gen_slice(rng) for _ in range(k)]]
+    k = 0 if (bad and rng.random() < 0.15) else rng.randint(1, 3)
+    return ["sel", base, [[rng.choice(SEL_NTS), bool(bad and rng.random() < 0.3), gen_slice(rng) if rng.random() < 0.5 else None] for _ in range(k)]]
+
+
+def gen_sel(rng, depth: int, shape: str) -> list:
+    """shape: "flat" (what a paren-free text denotes), "paren" (needs parentheses in the source), "bad"
+    (may leave the printable class: a group on a group, direct entries, empty groups)"""
+    if shape == "flat":
+        s = gen_selection(rng, False)
+        for _ in range(rng.choice([0, 0, 1, 1, 2, 3])):
+            s = [rng.choice(["attr", "attr", "desc"]), s, gen_selection(rng, False)]
+        return s
+    if depth <= 0 or rng.random() < 0.3:
+        return gen_selection(rng, shape == "bad")
+    r = rng.random()
+    if r < 0.6:
+        return [rng.choice(["attr", "attr", "desc"]), gen_sel(rng, depth - 1, shape), gen_sel(rng, depth - 1, shape)]
+    base = gen_sel(rng, depth - 1, shape)
+    if shape != "bad":
+        # keep it printable as a selector: a group only on a base whose last selection is bare
+        while not last_bare(base):
+            base = gen_sel(rng, depth - 1, shape)
+    if r < 0.8:
+        return ["item", base, [gen_slice(rng) for _ in range(rng.randint(1, 2))]]
+    return ["sel", base, [[rng.choice(SEL_NTS), False, gen_slice(rng) if rng.random() < 0.5 else None] for _ in range(rng.randint(1, 2))]]
+
+
+def last_bare(s: list) -> bool:
+    if s[0] == "rule":
+        return True
+    if s[0] in ("attr", "desc"):
+        return last_bare(s[2])
+    return False
+
+
+def gen_top(rng, shape: str) -> list:
+    return [rng.choice(["plain", "plain", "plain", "star", "lenbar", "lenstar"]), gen_sel(rng, 3, shape)]
+
+
+def py_slice(sl: Optional[list]) -> Any:
+    if sl is None:
+        return None
+    return sl[1] if sl[0] == "idx" else slice(sl[1], sl[2], sl[3])
+
+
+def build_search(s: list):
+    from fandango.language import search as S
+    from fandango.language.symbols import NonTerminal
+    t = s[0]
+    if t == "rule":
+        return S.RuleSearch(NonTerminal(s[1]))
+    if t == "attr":
+        return S.AttributeSearch(build_search(s[1]), build_search(s[2]))
+    if t == "desc":
+        return S.DescendantAttributeSearch(build_search(s[1]), build_search(s[2]))
+    if t == "item":
+        return S.ItemSearch(build_search(s[1]), [py_slice(x) for x in s[2]])
+    if t == "sel":
+        return S.SelectiveSearch(build_search(s[1]), [(NonTerminal(p[0]), bool(p[1])) for p in s[2]], [py_slice(p[2]) for p in s[2]])
+    raise MachineryError(f"bad selector term {s!r}")
+
+
+def build_top(t: list):
+    from fandango.language import search as S
+    inner = build_search(t[1])
+    if t[0] == "plain":
+        return inner
+    if t[0] == "star":
+        return S.StarSearch(inner)
+    if t[0] == "lenbar":
+        return S.LengthSearch(inner)
+    if t[0] == "lenstar":
+        return S.LengthSearch(S.StarSearch(inner))
+    raise MachineryError(f"bad selector top {t!r}")
+
+
+class NotASelector(Exception):
+    pass
+
+
+def slice_json(x: Any) -> Optional[list]:
+    if x is None:
+        return None
+    if isinstance(x, slice):
+        for v in (x.start, x.stop, x.step):
+            if v is not None and (not isinstance(v, int) or v < 0):
+                raise NotASelector(f"slice bound {v!r}")
+        return ["rng", x.start, x.stop, x.step]
+    if isinstance(x, int) and not isinstance(x, bool) and x >= 0:
+        return ["idx", x]
+    raise NotASelector(f"slice {x!r}")
+
+
+def search_json(s) -> list:
+    n = type(s).__name__
+    if n == "AnnotatedSearch":
+        return search_json(s._inner)
+    if n == "RuleSearch":
+        return ["rule", s.symbol.name()]
+    if n == "AttributeSearch":
+        return ["attr", search_json(s.base), search_json(s.attribute)]
+    if n == "DescendantAttributeSearch":
+        return ["desc", search_json(s.base), search_json(s.attribute)]
+    if n == "ItemSearch":
+        return ["item", search_json(s.base), [slice_json(x) for x in s.slices]]
+    if n == "SelectiveSearch":
+        return ["sel", search_json(s.base), [[sym.name(), bool(d), slice_json(it)] for (sym, d), it in zip(s.symbols, s.slices)]]
+    raise NotASelector(n)
+
+
+def top_json(s) -> list:
+    n = type(s).__name__
+    if n == "AnnotatedSearch":
+        return top_json(s._inner)
+    if n == "StarSearch":
+        return ["star", search_json(s.base)]
+    if n == "LengthSearch":
+        v = s.value
+        while type(v).__name__ == "AnnotatedSearch":
+            v = v._inner
+        if type(v).__name__ == "StarSearch":
+            return ["lenstar", search_json(v.base)]
+        return ["lenbar", search_json(v)]
+    return ["plain", search_json(s)]
+
+
+def render_sel(toks: list) -> str:
+    """the model's selector tokens with the layout of the code: `, ` between entries, `: ` before the index /
+    slice of a `{…}` entry, nothing else"""
+    out: list[str] = []
+    stack: list[str] = []
+    prev = None
+    for t in toks:
+        if isinstance(t, list):
+            out.append(t[1] if t[0] == "nt" else str(t[1]))
+        elif t == ",":
+            out.append(", ")
+        elif t == ":" and stack and stack[-1] == "{" and isinstance(prev, list) and prev[0] == "nt":
+            out.append(": ")
+        else:
+            out.append(t)
+            if t in "[{":
+                stack.append(t)
+            elif t in "]}" and stack:
+                stack.pop()
+        prev = t
+    return "".join(out)
+
+
+def read_selector_text(text: str):
+    """the real front end on `where <text> == 0`: ("sel", top) when the left operand is exactly one selector,
+    ("other",) when it is accepted as something else, ("reject", kind)"""
+    try:
+        sp = read_real(SEL_GRAMMAR + "where " + text + " == 0\n")
+    except Exception as e:  # noqa
+        return ("reject", reject_kind(e))
+    cs = [c for c in sp.constraints if type(c).__name__ != "RepetitionBoundsConstraint"]
+    if len(cs) != 1 or type(cs[0]).__name__ != "ComparisonConstraint":
+        return ("other",)
+    c = cs[0]
+    if str(c._left) not in c.searches or len(c.searches) != 1 or str(c._right) != "0":
+        return ("other",)
+    try:
+        return ("sel", top_json(c.searches[str(c._left)]), c.searches[str(c._left)])
+    except NotASelector:
+        return ("other",)
+
+
+def found(search, tree) -> Any:
+    """what a search finds in a tree, canonically: container class + the (symbol, text, position) of each tree"""
+    def key(t):
+        path = []
+        x = t
+        while x.parent is not None:
+            path.append(next(i for i, k in enumerate(x.parent.children) if k is x))
+            x = x.parent
+        return [str(t.symbol), str(t), path[::-1]]
+    def kind(c):
+        while type(c).__name__ == "AnnotatedContainer":
+            c = c._inner
+        return type(c).__name__
+    try:
+        return [[kind(c), [key(t) for t in c.get_trees()]] for c in search.find(tree)]
+    except Exception as e:  # noqa
+        return "raises:" + type(e).__name__
+
+
+def selector_phase(ctx: Ctx, n_cases: int) -> None:
+    run = ctx.run
+    rng = run.rng("selectors")
+    tops: list[tuple] = []
+    for src in ["<a>.<b>", "<a>..<b>.<c>", "<a>[0]", "<a>[:2]", "<a>[2:]", "<a>[::2]", "<a>[:]", "<a>[1:2:3]", "<a>[0, 1:]", "<a>{*<b>}",
+                "<a>{*<b>: 1, *<c>: :2}", "*<a>.<b>", "|<a>..<c>|", "len(*<start>.<a>)", "<a>.(<b>.<c>)", "(<a>.<b>)[0]", "(<a>..<b>){*<c>}",
+                "<a>.(<b>..<c>[0]).<c>", "((<a>))"]:
+        r = read_selector_text(src)
+        if r[0] != "sel":
+            raise MachineryError(f"selector source {src!r} is not read as a selector: {r[:2]}")
+        tops.append((r[1], "source"))
+    for i in range(n_cases):
+        shape = "flat" if i % 5 < 2 else "paren" if i % 5 < 4 else "bad"
+        tops.append((gen_top(rng, shape), shape))
+    ans = driver_ask("drv_print", [{"op": "selprint", "top": t} for t, _ in tops])
+    trees = None
+    printed: list[list] = []
+    for (t, shape), a in zip(tops, ans):
+        run.evaluations += 1
+        run.count("selector:" + shape)
+        run.count("selector_top:" + t[0])
+        run.count("selector:" + ("wf" if a["wf"] else "not_wf") + ("/flat" if a["flat"] else "/paren"))
+        real = build_top(t)
+        real_text = real.format_as_spec()
+        model_text = render_sel(a["toks"])
+        run.case(["sel", t], not a["flat"] or t[0] != "plain", {"selector": real_text})
+        # (P) printer correspondence
+        if model_text != real_text:
+            ctx.corr_fail("selector_print", {"term": t, "model": model_text, "impl": real_text})
+            continue
+        printed.append(a["toks"])
+        # theorem instances, re-computed by the driver
+        if a["wf"] and a["read"] != a["norm"]:
+            ctx.corr_fail("selector_theorem_instance", {"term": t, "read": a["read"], "norm": a["norm"]})
+        if a["wf"] and a["flat"] and a["norm"] != t:
+            ctx.corr_fail("selector_flat_instance", {"term": t, "norm": a["norm"]})
+        # (R) the real front end on the printed text
+        rr = read_selector_text(real_text)
+        real_top = rr[1] if rr[0] == "sel" else None
+        if real_top != a["read"]:
+            ctx.corr_fail("selector_read", {"term": t, "text": real_text, "model": a["read"], "impl": rr[:2]})
+            continue
+        if not a["wf"]:
+            run.count("selector_unprintable:" + rr[0])
+            continue
+        # the property on the real code: the search read back finds what the original finds
+        if trees is None:
+            with quiet(), warnings.catch_warnings():
+                warnings.simplefilter("ignore")
+                g, _ = gio.parse_spec(SEL_GRAMMAR)
+                trees = [g.parse(w) for w in SEL_WORDS]
+                trees = [x for x in trees if x is not None]
+        for tr in trees:
+            f1, f2 = found(real, tr), found(rr[2], tr)
+            run.count("selector_finds_compared")
+            if f1 != f2:
+                run.report("C15/selector-changed", f"selector {real_text!r}: the search object finds {str(f1)[:120]} in {str(tr)!r}, "
+                           f"the search read back from its printed form finds {str(f2)[:120]}",
+                           {"kind": "selector", "spec": SEL_GRAMMAR + "where " + real_text + " == 0\n", "term": t, "input": str(tr)})
+                break
+    # (R') the selector reader on mutated token strings
+    pool = [".", "..", "[", "]", "{", "}", ",", ":", "*", "(", ")", "|", "len", ["nt", "<a>"], ["nt", "<b>"], ["num", 0], ["num", 7]]
+    muts: list[list] = []
+    for toks in printed:
+        t2 = list(toks)
+        i = rng.randrange(len(t2) + 1)
+        r = rng.random()
+        if r < 0.35 and i < len(t2):
+            del t2[i]
+        elif r < 0.75:
+            t2.insert(i, rng.choice(pool))
+        elif i < len(t2):
+            t2[i] = rng.choice(pool)
+        if rng.random() < 0.25 and t2 and t2[0] not in ("*", "|", "len"):
+            t2 = ["("] + t2 + [")"]          # a parenthesised dot_selection is a base_selection
+        # the token list must survive rendering: no two tokens that the lexer would read as one
+        def glued(x, y):
+            num = lambda z: isinstance(z, list) and z[0] == "num"   # noqa: E731
+            return (num(x) and num(y)) or (x in (".", "..") and y in (".", "..")) or (x == "*" and y == "*") \
+                or (x == "len" and isinstance(y, list)) or (num(x) and y in (".", "..")) or (x in (".", "..") and num(y))
+        # `(*<a>)`, `(|<a>|)`, `(len(*<a>))`: the parenthesis is a Python group around the selector — the expression
+        # layer, not the selector sub-grammar
+        k = 0
+        while k < len(t2) and t2[k] == "(":
+            k += 1
+        py_group = 0 < k < len(t2) and t2[k] in ("*", "|", "len")
+        if t2 and not py_group and not any(glued(x, y) for x, y in zip(t2, t2[1:])):
+            muts.append(t2)
+    ans2 = driver_ask("drv_print", [{"op": "selread", "toks": m} for m in muts])
+    for m, a in zip(muts, ans2):
+        run.evaluations += 1
+        text = render_sel(m)
+        rr = read_selector_text(text)
+        real_top = rr[1] if rr[0] == "sel" else None
+        run.count("selector_tokens:" + rr[0])
+        if real_top != a["top"]:
+            ctx.corr_fail("selector_read_tokens", {"text": text, "model": a["top"], "impl": rr[:2]})
+
+
+# --- payloads: expressions with embedded selectors, computed bounds, generators ---------------------------
+
+_PLACEHOLDER = re.compile(r"___fandango_[0-9]+_[0-9]+___")
+
+
+def expr_json(text: str, searches: dict) -> list:
+    """Python text with placeholders -> the model's Expr: text chunks verbatim + selector occurrences"""
+    out: list = []
+    pos = 0
+    for m in _PLACEHOLDER.finditer(text):
+        if m.group(0) not in searches:
+            raise MachineryError(f"placeholder {m.group(0)} without a search in {text!r}")
+        out.append(["code", text[pos:m.start()]])
+        out.append(["sel", top_json(searches[m.group(0)])])
+        pos = m.end()
+    out.append(["code", text[pos:]])
+    return out
+
+
+def bound_json(data) -> list:
+    text, _, searches = data
+    if text.isdigit():
+        return ["num", int(text)]
+    return ["expr", expr_json(text, searches or {})]
+
+
+def cb_json(node) -> list:
+    bc = node.bounds_constraint
+    if bc.expr_data_max is bc.expr_data_min:
+        return ["single", expr_json(bc.expr_data_min[0], bc.expr_data_min[2] or {})]
+    hi = None if (node.internal_max is None and bc.expr_data_max[0].isdigit()) else bound_json(bc.expr_data_max)
+    return ["range", bound_json(bc.expr_data_min), hi]
+
+
+def enode_json(node, table) -> list:
+    from fandango.language.grammar.nodes.alternative import Alternative
+    from fandango.language.grammar.nodes.concatenation import Concatenation
+    from fandango.language.grammar.nodes.repetition import Option, Plus, Repetition, Star
+    if isinstance(node, Alternative):
+        return ["alt", str(node.id), [enode_json(n, table) for n in node.alternatives]]
+    if isinstance(node, Concatenation):
+        return ["cat", str(node.id), [enode_json(n, table) for n in node.nodes]]
+    if isinstance(node, Repetition):
+        if getattr(node, "bounds_constraint", None) is not None and not isinstance(node, (Star, Plus, Option)):
+            return ["crep", str(node.id), enode_json(node.node, table), cb_json(node)]
+        j = gio.node_to_json(node, table)
+        return ["rep", j[1], j[2], enode_json(node.node, table), j[4], j[5]]
+    return gio.node_to_json(node, table)
+
+
+def rules_json(grammar, table) -> list:
+    out = []
+    for nt, rhs in grammar.rules.items():
+        gen = None
+        if nt in grammar.generators:
+            g = grammar.generators[nt]
+            gen = expr_json(str(g.call), g.nonterminals)
+        out.append({"name": nt.name(), "rhs": enode_json(rhs, table), "gen": gen})
+    return out
+
+
+def render_etoks(etoks: list) -> str:
+    """code chunks verbatim, runs of selector tokens through render_sel"""
+    out, run_ = [], []
+    for t in etoks:
+        if t[0] == "s":
+            run_.append(t[1])
+        else:
+            if run_:
+                out.append(render_sel(run_))
+                run_ = []
+            out.append(t[1])
+    if run_:
+        out.append(render_sel(run_))
+    return "".join(out)
+
+
+def render_cbt(cbt: list) -> str:
+    def b(x):
+        return "" if x is None else str(x[1]) if x[0] == "num" else render_etoks(x[1])
+    if cbt[0] == "single":
+        return "{" + render_etoks(cbt[1]) + "}"
+    return "{" + b(cbt[1]) + "," + b(cbt[2]) + "}"
+
+
+def canon_rules(rules: Optional[list], pats: list) -> Any:
+    """ids erased, regexes by fingerprint"""
+    if rules is None:
+        return None
+
+    def cn(n):
+        t = n[0]
+        if t == "crep":
+            return ["crep", cn(n[2]), n[3]]
+        if t in ("alt", "cat"):
+            return [t, [cn(k) for k in n[2]]]
+        if t == "rep":
+            return ["rep", n[2], cn(n[3]), n[4], n[5]]
+        return canon(n, pats)
+    return [[r["name"], cn(r["rhs"]), r["gen"]] for r in rules]
+
+
+PAYLOAD_SELECTORS = ["<cnt>", "<cnt>.<d>", "<hdr>..<d>", "<hdr>.<cnt>.<d>", "<cnt>[0]", "<hdr>.<cnt>[0:1]", "(<hdr>.<cnt>).<d>", "<hdr>.(<cnt>.<d>)",
+                     "<hdr>{*<d>}", "<hdr>..<d>[0]"]
+PAYLOAD_EXPRS = ["int(%s)", "int(str(%s)) + 1", "max(1, int(%s))", "int(%s) * 2 - 1", "len(str(%s))", "int(%s) if True else 3", "int(str(%s)[0:1])"]
+GEN_EXPRS = ["dup(%s)", "str(%s) * 2", "dup(%s) + dup(%s)", "'x' + str(%s)", "dup(str(%s)[0:1])", "dup(|%s|)", "dup(len(*%s))", "'k'"]
+
+
+def gen_payload_spec(rng) -> str:
+    sel = lambda: rng.choice(PAYLOAD_SELECTORS)   # noqa: E731
+    e = lambda: rng.choice(PAYLOAD_EXPRS) % sel()   # noqa: E731
+    lines = ["<start> ::= <hdr> <body>", "<hdr> ::= <cnt> <d>", "<cnt> ::= <d>", "<d> ::= '1' | '2' | '3'"]
+    reps = []
+    for _ in range(rng.randint(1, 3)):
+        operand = rng.choice(["<x>", "'a'", "('a' <x>)", "(<x> | 'b')", "<x>+", "r'[a-c]'"])
+        if operand == "<x>+":
+            operand = "(<x>+)"
+        r = rng.random()
+        if r < 0.35:
+            b = "{%s}" % e()
+        elif r < 0.55:
+            b = "{%d,%s}" % (rng.randint(0, 3), e())
+        elif r < 0.7:
+            b = "{%s,%d}" % (e(), rng.randint(0, 4))
+        elif r < 0.8:
+            b = "{%s,}" % e()
+        elif r < 0.9:
+            b = "{,%s}" % e()
+        else:
+            b = "{%s,%s}" % (e(), e())
+        reps.append(operand + b)
+    lines.append("<body> ::= " + rng.choice([" ", " | "]).join(reps))
+    g = rng.choice(GEN_EXPRS)
+    g = g % tuple(sel() for _ in range(g.count("%s")))
+    lines.append("<x> ::= 'x' | 'xx'" + (" := " + g if rng.random() < 0.7 else ""))
+    code = "def dup(x):\n    return str(x) * 2\n\n"
+    return code + "\n".join(lines) + "\n"
+
+
+def payload_phase(ctx: Ctx, n_cases: int) -> None:
+    """computed repetition bounds and generators: real grammar -> model rules; model printG vs repr(grammar);
+    the real front end on the printed text vs model readG / normG"""
+    run = ctx.run
+    rng = run.rng("payloads")
+    for ci in range(n_cases):
+        text = gen_payload_spec(rng)
+        run.evaluations += 1
+        try:
+            sp1 = read_real(text)
+        except Exception as e:  # noqa
+            raise MachineryError(f"generated spec does not parse ({e}):\n{text}")
+        t1 = gio.RegexTable()
+        rules1 = rules_json(sp1.grammar, t1)
+        for r in rules1:
+            if r["gen"] is not None:
+                run.count("payload:generator")
+                run.count("payload:generator_selectors", sum(1 for s in r["gen"] if s[0] == "sel"))
+        a = driver_ask("drv_print", [{"op": "rules", "rules": rules1, "cap": ctx.cap}])[0]
+        replay = {"kind": "spec", "spec": text, "via": "repr"}
+        run.case(["payload", canon_rules(rules1, t1.patterns)], True, {"spec": text[-300:]})
+        if not a["wf"]:
+            ctx.corr_fail("payload_wf", {"spec": text, "what": "the front end built rules the model calls inexpressible"})
+            continue
+        # (P) model printG, rendered with the code's layout, vs repr(grammar)
+        lit_texts = model_literal_texts([lf for r in rules1 for lf in leaves_in_e(r["rhs"], [])])
+
+        def lit_text(lf):
+            return str(lf[1]) if lf[0] == "i" else lit_texts[json.dumps(lf)]
+
+        def re_text(i):
+            return real_terminal_text(["re", i], t1.patterns)
+
+        model_lines = []
+        for rt in a["texts"]:
+            line = rt["name"] + " ::= " + render_e(rt["rhs"], lit_text, re_text)
+            if rt["gen"] is not None:
+                line += " := " + render_etoks(rt["gen"])
+            model_lines.append(line)
+        printed = repr(sp1.grammar)
+        if "\n".join(model_lines) != printed:
+            ctx.corr_fail("payload_print", {"spec": text, "model": "\n".join(model_lines), "impl": printed})
+            continue
+        for rt in a["texts"]:
+            for t in rt["rhs"]:
+                if isinstance(t, list) and t[0] == "{c":
+                    run.count("payload:computed_bounds:" + t[1][0])
+        # (R) the real front end on the printed text vs the model's reader
+        full = (sp1.code_text + "\n\n" if sp1.code_text else "") + printed + "\n"
+        try:
+            sp2 = read_real(full)
+        except Exception as e:  # noqa
+            run.report("C15/printed-text-rejected", f"printed spec is not accepted by the front end ({reject_kind(e)}: {str(e)[:160]})", replay)
+            continue
+        t2 = gio.RegexTable()
+        rules2 = rules_json(sp2.grammar, t2)
+        c_read, c_norm, c_real = canon_rules(a["read"], t1.patterns), canon_rules(a["norm"], t1.patterns), canon_rules(rules2, t2.patterns)
+        if c_read != c_norm:
+            ctx.corr_fail("payload_theorem_instance", {"spec": text, "read": a["read"], "norm": a["norm"]})
+        if c_real != c_read:
+            ctx.corr_fail("payload_read", {"spec": text, "printed": printed, "model": c_read, "impl": c_real})
+        # the static bounds of the re-read repetitions (what parse / fuzz use)
+        if grammar_canon(sp1.grammar) != grammar_canon(sp2.grammar):
+            run.report("C15/language-changed", "the static repetition bounds / rule bodies change on print+read", replay)
+        if repr(sp2.grammar) != printed:
+            run.report("C15/print-not-idempotent", "printing the re-read spec gives a different text", replay)
+
+
+def leaves_in_e(n: list, out: list) -> list:
+    if n[0] == "crep":
+        return leaves_in_e(n[2], out)
+    if n[0] in ("alt", "cat"):
+        for k in n[2]:
+            leaves_in_e(k, out)
+        return out
+    if n[0] == "rep":
+        return leaves_in_e(n[3], out)
+    return leaves_in(n, out)
+
+
+def render_e(toks: list, lit_text, re_text) -> str:
+    """render() for token lists that may hold computed brace groups"""
+    plain: list = []
+    for t in toks:
+        if isinstance(t, list) and t[0] == "{c":
+            plain.append(["{raw", render_cbt(t[1])])
+        else:
+            plain.append(t)
+    out: list[str] = []
+    prev = None
+    for t in plain:
+        if isinstance(t, list) and t[0] == "{raw":
+            s, postfix = t[1], True
+        else:
+            s = render([t], lit_text, re_text)
+            postfix = isinstance(t, str) and t in "*+?" or (isinstance(t, list) and t[0] in ("{", "{,"))
+        if prev is not None and not (prev == "(" or s == ")" or postfix):
+            out.append(" ")
+        out.append(s)
+        prev = s
+    return "".join(out)
+
+
+# ------------------------------------------------------------------------------------------------
 # phase S: whole specs — repr(grammar), `fandango convert`, generators, computed repetitions, parties
 # ------------------------------------------------------------------------------------------------
 
@@ -1430,6 +2166,20 @@ def replay(path: str) -> int:
                     bad.append(f"verdict on {w!r}: original {x}, re-read {y}")
         except Exception as e:  # noqa
             bad.append(f"printed constraint rejected: {type(e).__name__}: {str(e)[:200]}")
+    elif kind == "regex":
+        from fandango.language.symbols import Terminal
+        p = pat_unshow(rp["pattern"])
+        t = Terminal(p)
+        t._is_regex = True
+        text = t.format_as_spec()
+        print("pattern:", ascii(p), " printed:", ascii(text))
+        real = read_symbol_text(text)
+        if real[0] != "regex":
+            bad.append(f"printed regex literal {text!a} is not read back as a regex terminal: {real}")
+        elif type(real[1]) is not type(p) or denote(real[1]) != denote(p):
+            cands = DEN_T if isinstance(p, str) else DEN_B
+            d = [c for c, x, y in zip(cands, denote(p), denote(real[1])) if x != y][:3] if "error" not in (denote(p), denote(real[1])) else "compile error"
+            bad.append(f"{p!a} is read back as {real[1]!a}: re.fullmatch differs on {d!a}")
     elif kind == "literal":
         try:
             sp = read_real(spec)
@@ -1534,6 +2284,9 @@ def main(tier: str) -> int:
         run.coverage["phase_s"] = {"nodes": round(t0 - run.t0, 1)}
         for name, fn in (("tokens", lambda: token_phase(ctx, 500 if quick else 5000)),
                          ("literals", lambda: literal_phase(ctx, 400 if quick else 6000)),
+                         ("regexes", lambda: regex_phase(ctx, 500 if quick else 6000)),
+                         ("selectors", lambda: selector_phase(ctx, 400 if quick else 5000)),
+                         ("payloads", lambda: payload_phase(ctx, 60 if quick else 800)),
                          ("specs", lambda: spec_phase(ctx, 150 if quick else 1500, tmpdir)),
                          ("words", lambda: word_phase(ctx, 40 if quick else 400)),
                          ("constraints", lambda: constraint_phase(ctx, 120 if quick else 1500))):
